@@ -80,6 +80,7 @@ struct Views {
 
 static void fill_options(reproc::options &o, const ShimOptions &s, std::vector<std::pair<std::string, std::string>> *pairs, bool *use_pairs) {
   if (s.clone) o = reproc::options::clone(g_pristine_options);
+  o.timeout = reproc::milliseconds(77);  // a member without a C counterpart: whatever it holds reaches nothing
   o.working_directory = s.working_directory;
   o.env.behavior = (reproc::env::type) s.env_behavior;
   *use_pairs = false;
@@ -170,6 +171,12 @@ static ShimRet x_poll(ShimSource *s, size_t n, int timeout) {
   if (!s || n == 0) {
     std::error_code ec = reproc::poll(nullptr, s ? n : 0, reproc::milliseconds(timeout));
     return R(ec ? -1 : 0, ec);
+  }
+  if (n == 1 && s[0].process && (timeout & 1) == 0) {
+    // the member shorthand for a single process
+    auto pr = ((reproc::process *) s[0].process)->poll(s[0].interests, reproc::milliseconds(timeout));
+    if (!pr.second) s[0].events = pr.first;  // (on an error the C call leaves the caller's field alone; the member has no such field)
+    return R(pr.second ? -1 : (pr.first ? 1 : 0), pr.second);
   }
   std::vector<reproc::event::source> v;
   v.reserve(n);
